@@ -442,7 +442,7 @@ def job_analyze(job):
     res["original_loop_guard"] = str(program.original_loop_guard)
 
     # ---- goals
-    cli_args = Namespace(solvability_check=False, at_n=-1, after_loop=False)
+    cli_args = Namespace(solvability_check=bool(job.get("solvability_check")), at_n=-1, after_loop=False)
     rec_builder = RecBuilder(program)
     solvers = {}
     goals_out = {}
@@ -1265,6 +1265,20 @@ def job_synth(job):
     from unsolvable_analysis import UnsolvInvSynthesizer, SolvLoopSynthesizer
     res = {"id": job["id"], "kind": "synth"}
     apply_settings(job.get("settings"))
+    for pre in job.get("pre", []):
+        # earlier analyses in the same process (history): their results are not reported
+        try:
+            from inputparser import Parser as _P
+            from program import normalize_program as _np
+            from unsolvable_analysis import UnsolvInvSynthesizer as _U
+            _prog = _np(_P().parse_string(pre["text"]))
+            _c = [v for v in _prog.defective_variables if v in _prog.original_variables]
+            if _c:
+                _U.synth_inv(_c, pre.get("deg", 2), _prog)
+        except JobTimeout:
+            raise
+        except Exception:
+            pass
     points = job.get("points") or [{}]
     N = job.get("N", 4)
     deg = job.get("deg", 2)
